@@ -59,7 +59,7 @@ def export_case():
             gens.append({'blk': draw(st.integers(0, 400)), 'name': draw(st.sampled_from(['wel 1', 'wel 2', 'inj 1', 'src 7'])),
                          'type': draw(st.sampled_from(['MASS', 'HEAT', 'COM1', 'DELG', 'MASS', 'TMAK', 'DMAK'])),
                          'gx': draw(st.sampled_from([-5.0, 2.5, 0.0, 1e3])), 'table': draw(st.booleans())})
-        return {'k': 'export', 'rc': rc, 'eos': eosname, 'eos_via': draw(st.sampled_from(['argument', 'multi', 'simulator', 'simulator+multi'])),
+        return {'k': 'export', 'rc': rc, 'eos': eosname, 'eos_via': draw(st.sampled_from(['argument', 'multi', 'simulator', 'simulator+multi', 'simulator+multi-blank-eos', 'simulator+multi-none-eos', 'multi-padded'])),
                 'rocks': draw(st.lists(st.integers(0, 2), min_size=1, max_size=12)),
                 'boundary': draw(st.lists(st.tuples(st.integers(0, 400), st.sampled_from(['zero', 'huge'])), max_size=3)),
                 'gens': gens}
@@ -236,9 +236,13 @@ def run_export(case, R):
     if via == 'argument': arg = eos
     elif via == 'multi': d.multi = {'eos': eos}
     elif via == 'simulator': d.simulator = 'AUTOUGH2.2' + eos
+    elif via == 'multi-padded': d.multi = {'eos': (eos + '    ')[:4] if len(eos) < 4 else eos}
     else:
         d.simulator = 'AUTOUGH2.2' + eos
         d.multi = {'num_components': 1, 'num_equations': 2, 'num_phases': 2, 'num_secondary_parameters': 6}
+        # a MULTI line without an EOS name reads back with a blank (or absent) EOS entry: the simulator string decides
+        if via == 'simulator+multi-blank-eos': d.multi['eos'] = ''
+        elif via == 'simulator+multi-none-eos': d.multi['eos'] = None
     d.parameter['default_incons'] = [1.e5, 20.]
     d.diffusion = [[-1e-6, -1e-6], [-1e-6, -1e-6]]
     with R.lib('eos_json'):
